@@ -5,7 +5,7 @@ from hypothesis import strategies as st
 from streamz import Stream
 from streamz.dataframe import DataFrame
 
-from harness.runner import Part, Result
+from harness.runner import Part, Result, fuzz_part as runner_fuzz_part
 from props import dfcommon as dc
 
 ID = "C06"
@@ -199,4 +199,6 @@ def _short(x):
     return x
 
 
-PARTS = [Part("aggregations", case_strategy, execute, quick=800, thorough=4000)]
+PARTS = [Part("aggregations", case_strategy, execute, quick=800, thorough=4000),
+         Part("coverage-guided:aggregations", None, execute, quick=0, thorough=0, shards=1,
+              exhaustive=runner_fuzz_part(ID, "aggregations"))]
